@@ -20,9 +20,9 @@ ASSUMPTIONS = ['complete enumeration stops at level 5 (quick) / 7 (thorough); de
 def plan(tier, seed):
     specs = []
     if tier == 'quick':
-        lv = [(r, k) for r in range(0, 5) for k in (1, 2, 3)] + [(5, 1)]
+        lv = [(r, k) for r in range(0, 5) for k in (1, 2, 3)] + [(5, 1)] + [(2, 6), (2, 7), (3, 5), (1, 10), (2, 13)]
     else:
-        lv = [(r, k) for r in range(0, 7) for k in (1, 2, 3)] + [(7, 1)]
+        lv = [(r, k) for r in range(0, 7) for k in (1, 2, 3)] + [(7, 1)] + [(r, k) for r in (1, 2, 3, 4) for k in (5, 6, 7, 10, 13, 14, 15, 16)]
     lv.sort(key=lambda x: -x[1] * 4 ** x[0])
     for r, k in lv:
         specs.append({'part': 'level', 'r': r, 'k': k})
@@ -188,13 +188,13 @@ def run_shard(spec, ctx):
         except Exception as e:
             ctx.note('locating call raised %r' % (e,))
             continue
-        local_certificate(a5, geo, c, r, kind, ctx, k=rnd.choice((1, 2, 2, 3)))
+        local_certificate(a5, geo, c, r, kind, ctx, k=rnd.choice((1, 2, 2, 3, 3, 5, 6, 7, 10, 13, 16)))
     ctx.sample({'cell': c, 'r': r, 'cls': kind})
 
 
 def finalize(m, tier):
     inc = []
-    want = 16 if tier == 'quick' else 22
+    want = 21 if tier == 'quick' else 54
     if m['counters'].get('certificates', 0) != want:
         inc.append('only %d of %d level certificates completed' % (m['counters'].get('certificates', 0), want))
     for k in ('local_polar_hi', 'local_frame_hi', 'local_antimeridian_hi', 'local_uniform_hi', 'local_pattern_hi', 'local_edge_hi', 'local_seam_hi'):
